@@ -385,6 +385,8 @@ impl Prop for C10 {
                     if s.bases_covered != bn || s.min_val != mn || s.max_val != mx || s.sum != sum || s.sum_squares != ss {
                         return Err(format!("get_summary() = {:?}, the file encodes {:?}", s, enc.summary));
                     }
+                } else if s.bases_covered != 0 || s.sum != 0.0 {
+                    return Err(format!("the file has no total summary (offset 0) but get_summary() = {:?}", s));
                 }
                 for m in &models {
                     let mut ranges = vec![(0u32, m.size)];
